@@ -173,7 +173,33 @@ def run(repo, tier):
     out += nograd_eval(repo)
     # ---- purity
     out += pure_params(repo, fi, ["X", "args"])
+    out += container_rule(fi)
     return out
+
+
+def container_rule(fi):
+    """the returned container mirrors the model's: a tensor for a tensor, a list with one entry per output for a tuple / list - decided by the
+    TYPE of a batch output, never by the number of outputs"""
+    role = "a model returning a tuple / list of k tensors yields a list of k tensors (also for k = 1); a tensor yields a tensor"
+    rets = [n for n in walk_no_nested(fi.node) if isinstance(n, ast.Return) and n.value is not None]
+    if not rets:
+        return [unrecognised("CONTAINER", fi, role, "no return")]
+    r = rets[-1]
+    txt = unparse(r.value)
+    # a length test that unwraps
+    lens = [n for n in ast.walk(r.value) if isinstance(n, ast.Compare) and "len(" in unparse(n) and any(const_value(c) == 1 for c in n.comparators + [n.left])]
+    pm_ = parent_map(fi.node)
+    g = pm_.get(r)
+    if isinstance(g, ast.If) and "len(" in unparse(g.test) and any(isinstance(n, ast.Constant) and n.value == 1 for n in ast.walk(g.test)):
+        lens.append(g.test)
+    if lens and ("[0]" in txt):
+        from ..core import named
+        return [named("CONTAINER", fi, role, "the result is unwrapped when it has ONE element (`%s`): a model that returns a 1-tuple gets a bare tensor back, "
+                      "so y[0] is the first example instead of the first output" % txt[:70], r)]
+    tests = [n for n in walk_no_nested(fi.node) if isinstance(n, ast.If) and unparse(n.test) in ("isinstance(y[0], torch.Tensor)", "torch.is_tensor(y[0])")]
+    if txt == "y" and tests:
+        return [holds("CONTAINER", fi, role, "container chosen by `%s`" % unparse(tests[-1].test), tests[-1], nontrivial=False)]
+    return [unrecognised("CONTAINER", fi, role, "return `%s`" % txt[:80], r)]
 
 
 def order_rule(fi, loop, pm):
